@@ -2,6 +2,7 @@ package main
 
 import (
 	"bufio"
+	"bytes"
 	"fmt"
 	"os"
 
@@ -24,6 +25,20 @@ func famHistory(w *bufio.Writer, seed uint64, n int) error {
 		dir := mustMkdirTemp(workDir, "hist")
 		cfg := Config{LL: "store", MMPn: 8, MMPd: 10, MaxPre: 4, LevelMaxSegs: 1 + r.intn(3), LevelMult: 2 + r.intn(3),
 			PctN: 99, PctD: 100}
+		// a third of the cases are shaped for leveled (partial) compaction into the same file: one
+		// big first round, then small rounds under CompactionAllow with threshold 1.0 (small files
+		// are mostly page padding, which otherwise counts as fragmentation and forces full compaction)
+		leveled := r.chance(1, 3)
+		if leveled {
+			cfg.LevelMaxSegs, cfg.LevelMult, cfg.PctN, cfg.PctD = 1+r.intn(2), 2+r.intn(2), 1, 1
+		}
+		pickConcern := func() int {
+			if leveled && r.chance(4, 5) {
+				return 1
+			}
+			return r.pick([]int{6, 2, 2})
+		}
+		rounds := 0
 		g := &gen{r: r, o: genOpts{mergeW: 15}, universe: baseUniverse}
 		emit(L("case", i, int64(cs), cfg.sx(), L("universe", universeSx(baseUniverse))))
 		var s *moss.Store
@@ -52,17 +67,24 @@ func famHistory(w *bufio.Writer, seed uint64, n int) error {
 			}
 			sleepMicros(5000)
 		}
-		if err := open(0); err != nil {
+		first := 0
+		if leveled {
+			first = 1
+		}
+		if err := open(first); err != nil {
 			return err
 		}
 		steps := 6 + r.intn(8)
+		if leveled {
+			steps += 4
+		}
 		fail := false
 		for st := 0; st < steps && !fail; st++ {
 			switch r.pick([]int{50, 20, 15, 15}) {
 			case 0: // one persisted round
 				if c == nil {
 					closeAll()
-					if err := open(r.pick([]int{6, 2, 2})); err != nil {
+					if err := open(pickConcern()); err != nil {
 						emit(L("error", fmt.Sprintf("%q", err.Error())))
 						fail = true
 						break
@@ -77,6 +99,10 @@ func famHistory(w *bufio.Writer, seed uint64, n int) error {
 				if len(b.ops) == 0 {
 					b.ops = []bop{{'s', []byte("k0"), g.value()}}
 				}
+				if leveled && rounds == 0 {
+					b.ops = append(b.ops, bop{'s', []byte("k9"), bytes.Repeat([]byte("B"), 1500+r.intn(800))})
+				}
+				rounds++
 				hh := &H{coll: c}
 				if err := hh.execBatch(b); err != nil {
 					emit(L("error", fmt.Sprintf("%q", err.Error())))
@@ -146,7 +172,7 @@ func famHistory(w *bufio.Writer, seed uint64, n int) error {
 				emit(L("revert", tpos, res, pos, dump))
 			case 3: // close and reopen
 				closeAll()
-				if err := open(r.pick([]int{6, 2, 2})); err != nil {
+				if err := open(pickConcern()); err != nil {
 					emit(L("error", fmt.Sprintf("%q", err.Error())))
 					fail = true
 					break
